@@ -206,8 +206,6 @@ class Trace:
         r = self.pools()
         moved = [m.id for m in r['ingest'] if m.id not in before_ingest]
         self.pending_ingest -= demand
-        if len(moved) != demand:
-            self.V('C08', 'ingest_demand', f"{obs_name}: provisioning moved {len(moved)} machines for demand {demand}")
         for mid in moved:
             s = self.m[mid]
             if s['alloc'] is not None or s['promised'] is not None:
@@ -222,8 +220,11 @@ class Trace:
         if s['alloc'] is not None:
             self.V('C01', 'two_allocations', f"{task} allocated on {mid} while {s['alloc']['task']} holds it")
         if ingest:
-            if s['promised'] != obs:
-                self.V('C01', 'ingest_unpromised', f"ingest task {task} on {mid} not provisioned for {obs} ({s})")
+            # the machine must be free, or set aside for this very observation's ingest
+            if s['promised'] is not None and s['promised'] != obs:
+                self.V('C01', 'ingest_on_foreign_promise', f"ingest task {task} on {mid} which was set aside for ingest of {s['promised']}")
+            if s['res'] is not None:
+                self.V('C09', 'ingest_on_reserved', f"ingest task {task} on {mid} reserved for {s['res']}")
             s['promised'] = None
         else:
             if s['promised'] is not None:
